@@ -345,14 +345,15 @@ if not isinstance(unit, (list, tuple)):
     unit = [unit]
 self.addToFrame(data)
 single = kwargs.get('single', False)
-if self.isFrameReady():
+while self.isFrameReady():
     if self.checkFrame():
         if self._validate_unit_id(unit, single):
             self._process(callback)
         else:
-            self.resetFrame()
+            self.advanceFrame()
     elif self._buffer:
         self._header = {}
+        break
     else:
         self.resetFrame()
 else:
@@ -439,7 +440,7 @@ def gen_rtu(D):
     pip = fr.func(C, "processIncomingPacket")
     # the final `else:` holds only a logging call; give the template's `pass` something to face
     top = _clean(pip.body)
-    if top and isinstance(top[-1], ast.If) and top[-1].orelse and not _clean(top[-1].orelse):
+    if top and isinstance(top[-1], (ast.If, ast.While)) and top[-1].orelse and not _clean(top[-1].orelse):
         top[-1].orelse = [ast.Pass()]
     match_body(fr, pip, RTU_PIP_T)
     h = match_body(fr, fr.func(C, "buildPacket"), RTU_BUILD_T)
